@@ -1,5 +1,6 @@
 import PvModel.Props.C10
 import PvModel.Props.C04Rel
+import PvModel.Props.C17Query
 #print axioms Pv.C10_union
 #print axioms Pv.C10_union_inv
 #print axioms Pv.C10_union_mem
@@ -8,3 +9,5 @@ import PvModel.Props.C04Rel
 #print axioms Pv.C10_mplus_states
 #print axioms Pv.C10_no_leak
 #print axioms Pv.C10_rel_union
+#print axioms Pv.C10_query_branch_isolation
+#print axioms Pv.C10_query_branch_isolation_tree
